@@ -366,7 +366,7 @@ class Tree(object):
         if source is None:
             source = self._ROOT_NODE_NAME
         source_idx = self._node_indices[source]
-        descs = rx.descendants(self._graph, source_idx)
+        descs = sorted(rx.descendants(self._graph, source_idx))
         return [self._graph[child].node_id for child in descs]
 
     def get_number_of_descendants(self, source=None):
@@ -405,7 +405,7 @@ class Tree(object):
 
         subtree_root_idx = self._node_indices[subtree_root]
 
-        subtree_graph_node_indices = [subtree_root_idx] + list(rx.descendants(self._graph, subtree_root_idx))
+        subtree_graph_node_indices = [subtree_root_idx] + sorted(rx.descendants(self._graph, subtree_root_idx))
 
         subtree_graph = self._graph.subgraph(subtree_graph_node_indices, preserve_attrs=True)
 
@@ -479,7 +479,7 @@ class Tree(object):
                     del self._node_indices[node_id]
                     del self._node_indices_rev[curr_idx]
 
-            indices_to_remove = list(rx.descendants(self._graph, sub_root_idx)) + [sub_root_idx]
+            indices_to_remove = sorted(rx.descendants(self._graph, sub_root_idx)) + [sub_root_idx]
             self._graph.remove_nodes_from(indices_to_remove)
             self._update_path_to_root(parent_node.node_id)
 
